@@ -95,6 +95,13 @@ def render_flowir(case):
     ostages = {s: stage_scope(sv[4 + s]) for s in (0, 1) if sv[4 + s] > 0 and has[s]}
     if ostages:
         other["stages"] = ostages
+    if case.get("ovr"):
+        # every consumer repeats its references and arguments in an override for the platform that is loaded: by the documented
+        # layering the override wins and says the same, so the expected expansion is the same
+        plat = OTHER_PLATFORM if sv[2] == 1 else "default"
+        for d in out:
+            if d.get("references"):
+                d["override"] = {plat: {"references": list(d["references"]), "command": {"arguments": d["command"]["arguments"]}}}
     if other or sv[2] == 1:
         doc["platforms"] = ["default", OTHER_PLATFORM]
         if other:
@@ -291,6 +298,10 @@ def v_render_component(c):
         d["resourceManager"] = {"config": {"backnd": "local"}}
     elif k == "alien":
         d["command"]["zzqx"] = 1
+    elif k == "ovrkey":
+        d["override"] = {OTHER_PLATFORM: {"command": {"argumnts": "-y"}}}
+    elif k == "toplevel":
+        pass                    # rendered at document level (v_render_flowir)
     elif k:
         raise ValueError("unknown key site %r" % k)
     # an option given a value of another class (spec: Rule(site, cls))
@@ -330,7 +341,12 @@ def v_render_flowir(case):
             stages[st] = d
     if stages:
         variables["default"]["stages"] = stages
-    return {"variables": variables, "components": comps}
+    doc = {"variables": variables, "components": comps}
+    if any(c["xkey"] == "ovrkey" for c in case["comps"]):
+        doc["platforms"] = ["default", OTHER_PLATFORM]
+    if any(c["xkey"] == "toplevel" for c in case["comps"]):
+        doc["enviroments"] = {"default": {}}
+    return doc
 
 
 def _accept_checks(graph, conf_for_node, ncomponents):
